@@ -202,5 +202,5 @@ def run(ctx):
         ctx.run_hypothesis('cases', 160, kind='exhaustive')
         ctx.run_hypothesis('cases', 480, kind='random')
     else:
-        ctx.run_hypothesis('cases', 3000, kind='exhaustive')
-        ctx.run_hypothesis('cases', 12000, kind='random')
+        ctx.run_hypothesis('cases', 8000, kind='exhaustive')
+        ctx.run_hypothesis('cases', 40000, kind='random')
